@@ -151,6 +151,8 @@ for fam, T, typed, drop, fixed, mis, props, qs in [
         add('k2_range', '%s_k%d' % (fam, k), 'splice_h::<%s>(%s, %s, DROP, %s, %s, %d, %s)' % (T, typed, drop, fixed, mis, k, mk),
             props=props, tier='q' if k in qs else 't', kind='bounded', bound=BK, attrs=U5,
             cost=(400 if T in ('E3', 'E12', 'E24') else 120) * (k + 1), inputs=IN_RANGE + ['report?', 'r'])
+add('k2_range', 'drain_item_outlives_e8', 'range_item_outlives_h::<E8>(false)', props=['C03'], tier='q', kind='finding', attrs=U5, cost=10)
+add('k2_range', 'splice_item_outlives_e8', 'range_item_outlives_h::<E8>(true)', props=['C03'], tier='q', kind='finding', attrs=U5, cost=10)
 add('k2_range', 'splice_forget_e8', 'splice_h::<E8>(false, true, FORGET, false, false, 9, mk_e8)', props=['C07', 'C03'], tier='q',
     kind='full', attrs=U5, cost=5, inputs=IN_RANGE)
 add('k2_range', 'splice_typed_forget_e8', 'splice_h::<E8>(true, false, FORGET, false, false, 9, mk_e8)', props=['C07'], tier='q',
